@@ -16,9 +16,9 @@ import (
 
 func init() {
 	Registry["C19"] = Spec{
-		Fn:    c19,
-		Level: "exploration",
-		Rule: "(a) totality: ColAuto.Infer, ColumnType.Conflicts/Base/Elem/normalisation and every inferable column's Infer on malformed strings (unbalanced/empty parentheses, missing or non-numeric parameters, unknown bases, nesting depth up to 10000, arbitrary bytes, splices of valid types) - no panic, bounded time; (b) soundness: grammar-generated well-formed types (every leaf, precisions 0..9, time zones, enum literals with spaces/escaped quotes/=/,/negative codes, decimals 1..76, FixedString sizes, nesting to depth 4, spacing variants): Infer errors or yields a column whose Type() does not conflict and which decodes a reference-encoded block of that type to the reference values; (c) relation: reflexive, symmetric over all ordered pairs of a type pool, documented equivalences compatible, different base types conflicting. Non-trivial = parameterised or nested type / malformed with a valid prefix; distinct = type strings and pairs",
+		Fn:          c19,
+		Level:       "exploration",
+		Rule:        "(a) totality: ColAuto.Infer, ColumnType.Conflicts/Base/Elem/normalisation and every inferable column's Infer on malformed strings (unbalanced/empty parentheses, missing or non-numeric parameters, unknown bases, nesting depth up to 10000, arbitrary bytes, splices of valid types) - no panic, bounded time; (b) soundness: grammar-generated well-formed types (every leaf, precisions 0..9, time zones, enum literals with spaces/escaped quotes/=/,/negative codes, decimals 1..76, FixedString sizes, nesting to depth 4, spacing variants): Infer errors or yields a column whose Type() does not conflict and which decodes a reference-encoded block of that type to the reference values; (c) relation: reflexive, symmetric over all ordered pairs of a type pool, documented equivalences compatible, different base types conflicting. Non-trivial = parameterised or nested type / malformed with a valid prefix; distinct = type strings and pairs",
 		Assumptions: []string{"reference compatibility relation written from the property statement and the repository's documented table (proto/column_test.go)", "system tz database present"},
 		MinDistinct: 500,
 	}
